@@ -163,6 +163,33 @@ fn main() {
             }
             machinery(&format!("violation does not reproduce deterministically from its replay file {path} (if this is an agent check, ambient state in the agent is a possible cause: run C20)"));
         }
+        if v.property != prop && prop == "C20" && std::env::var("VERIF_PRISTINE").is_err() {
+            // The C20 exploration runs after unrelated agents have used the library in this process
+            // (agent::prelude).  A breach attributed to another property is C20's if the same
+            // history is clean in a process where no other agent ever ran.
+            let path = write_replay(v, 800 + n);
+            let exe = std::env::current_exe().unwrap_or_else(|e| machinery(&format!("current_exe: {e}")));
+            let st = std::process::Command::new(exe)
+                .args(["C20", "--replay", &path])
+                .env("VERIF_PRISTINE", "1")
+                .env("VERIF_THREADS", "2")
+                .stdout(std::process::Stdio::null())
+                .stderr(std::process::Stdio::null())
+                .status()
+                .unwrap_or_else(|e| machinery(&format!("pristine child: {e}")));
+            match st.code() {
+                Some(0) => {
+                    n += 1;
+                    unlisted += 1;
+                    println!("  C20/depends-on-earlier-unrelated-agents — after unrelated agents ran in this process the agent departs from the reference ({sig}); the same history in a process where no other agent ever ran does not (x{count})\n    expected: {}\n    observed: {}", v.expected, v.observed);
+                    println!("VIOLATION property=C20 replay={}", path);
+                    notes.push(format!("history whose replies depend on unrelated agents that ran earlier in the process: {path}"));
+                    continue;
+                }
+                Some(1) => {}
+                other => machinery(&format!("pristine child process ended with {other:?} on {path}")),
+            }
+        }
         if v.property != prop {
             // attributed to another property (shared transition function): evidence note only
             notes.push(format!("blocked by a violation attributed to {}: {} (x{})", v.property, sig, count));
